@@ -690,6 +690,23 @@ func nttToyLazy(p2 []uint64, N int, Q, MRedConstant uint64, roots []uint64) {
 	}
 }
 
+// ERRSTORE control: the failed product stays in the cache
+type powCache struct{ vals map[int]*big.Int }
+
+func mulChecked(a, b *big.Int) (*big.Int, error) {
+	if a == nil || b == nil {
+		return new(big.Int), fmt.Errorf("nil operand")
+	}
+	return new(big.Int).Mul(a, b), nil
+}
+
+func (p *powCache) Gen(n int) (err error) {
+	if p.vals[n], err = mulChecked(p.vals[n/2], p.vals[n-n/2]); err != nil {
+		return fmt.Errorf("gen: %w", err)
+	}
+	return
+}
+
 // INDEG control: the first two components of the input, whatever its degree
 func (e fixEvaluator) SumTwo(ctIn, opOut *rlwe.Ciphertext) {
 	e.r.Add(ctIn.Value[0], ctIn.Value[1], opOut.Value[0])
